@@ -789,6 +789,13 @@ func gen(r *h.Rand, tier string, emit func([]string)) {
 				delete(tracked, id)
 			case x < 72:
 				m.dropMeasurement(h.Pick(r, genNames), tracked)
+			case x < 78 && c%3 == 0:
+				// shard-local drop: the series stays in the series file (another shard holds it)
+				id := h.Pick(r, everCreated)
+				if !m.deleted[id] {
+					m.emit(fmt.Sprintf("xi %d", id))
+					delete(tracked, id)
+				}
 			default:
 				m.structural(r)
 			}
